@@ -403,7 +403,11 @@ func (e *Engine) appendOp(st *State, a, b Slice, ci ssa.CallInstruction) Value {
 	return Slice{Obj: id, Off: U64(0), Len: U64(uint64(al + bl)), Cap: U64(uint64(ncap))}
 }
 
-func (e *Engine) noteWrite(st *State, obj int, what string) {}
+func (e *Engine) noteWrite(st *State, obj int, what string) {
+	if st.sharedMax != 0 && obj != 0 && obj <= st.sharedMax && st.onceDepth == 0 && st.lockDepth == 0 {
+		e.sharedWrite(st, obj, what)
+	}
+}
 
 // growCap mirrors runtime.growslice (Go 1.20+) including size-class rounding for small sizes.
 func growCap(oldCap, newLen, esz uint64) uint64 {
